@@ -108,6 +108,7 @@ package keeper
 
 //@ func (*Keeper).Slash
 //@   requires parameter != nil
+//@   requires parameter.SlashEventHeight >= 0 && (isnil(parameter.SlashProportion) || val(parameter.SlashProportion) <= P18)
 //@   modifies state(ctx)
 //@   ensures[C09.slash.atomic] err != nil ==> state(ctx) == old(state(ctx))
 //@   ensures[C04.slash.once]   old(slashInfoRaw(ctx, accstr(parameter.Operator), parameter.AVSAddr, parameter.SlashID)) != nil ==>
